@@ -303,6 +303,80 @@ def convolve_with_types(ctx: Ctx, geom, jnp, n):
             ctx.violation("oracle", "convolve_with: " + "; ".join(bad), dict(desc, image=jarr(c["img"]), filter=jarr(c["flt"])))
 
 
+def filter_object_cases(ctx: Ctx, geom, jnp, n_cfg, n_g3):
+    """(g.A).convolve_with(g.C) with C held in a GeometricFilter and both operands transformed by their OWN
+    times_group_element methods (GeometricImage.times_group_element resp. GeometricFilter.times_group_element),
+    C not invariant under g and g != g^-1 (only there does an inverse slip in the filter's own action show):
+    both 90-degree rotations of B_2, the order 3/4/6 elements of B_3; filter order 0 (both parities) and 1."""
+    rng = ctx.rng
+    for d in (2, 3):
+        ops = refs.signed_perms(d)
+        noninv = [o for o in ops if not np.array_equal(np.asarray(o) @ np.asarray(o), np.eye(d, dtype=np.int64))]
+        assert len(noninv) == (2 if d == 2 else 28)
+        for it in range(n_cfg if d == 2 else max(2, n_cfg // 2)):
+            c = gen_sym_case(ctx, d, small=(d == 3))
+            c["kF"] = 0 if it % 3 else 1
+            if it % 3 == 0:
+                c["kI"] = min(c["kI"], 1)
+            string_pad = c["kind"] in ("TORUS", "SAME", "none")
+            m = 3 if string_pad else int(rng.choice([2, 3]))  # filters are square
+            c["M"] = [m] * d
+            c["img"] = c["img"][:1, :1]
+            pF = it % 2 if c["kF"] == 0 else int(rng.integers(0, 2))
+            pI = int(rng.integers(0, 2))
+            gs = noninv if d == 2 else [noninv[i] for i in rng.choice(len(noninv), size=min(n_g3, len(noninv)),
+                                                                      replace=False)]
+            for g in gs:
+                ginv = np.asarray(g).T
+                for _ in range(20):
+                    flt = rng.integers(-2, 3, size=[1, 1] + c["M"] + [d] * c["kF"]).astype(np.int64)
+                    if not np.array_equal(refs.act(flt[0, 0], d, pF, g), refs.act(flt[0, 0], d, pF, ginv)) and \
+                            not np.array_equal(refs.act(flt[0, 0], d, pF, g), flt[0, 0]):
+                        break
+                else:
+                    continue
+                cc = dict(c, flt=flt)
+                pad = cc["padding"]
+                if isinstance(pad, list):
+                    pad = tuple(tuple(p) for p in pad)
+                try:
+                    A = geom.GeometricImage(jnp.array(cc["img"][0, 0], dtype=jnp.float32), pI, d, tuple(cc["torus"]))
+                    C = geom.GeometricFilter(jnp.array(flt[0, 0], dtype=jnp.float32), pF, d, tuple(cc["torus"]))
+                    out = A.convolve_with(C, 1, pad, None if cc["ld"] is None else tuple(cc["ld"]), tuple(cc["rd"]))
+                except Exception:
+                    continue  # rejected configuration
+                if 0 in out.data.shape:
+                    continue
+                c2 = transport_case(cc, g)
+                pad2 = c2["padding"]
+                if isinstance(pad2, list):
+                    pad2 = tuple(tuple(p) for p in pad2)
+                desc = dict(describe(cc, g, pI, pF), entry="GeometricImage.times_group_element / "
+                            "GeometricFilter.times_group_element, then GeometricImage.convolve_with")
+                nontriv = len(np.unique(cc["img"])) > 1
+                ctx.case(("cw-filter-object", d, it, desc), nontriv, sample=desc if it == 0 else None)
+                ctx.hist("filter_object kF,pF", (cc["kF"], pF)); ctx.hist("filter_object d", d)
+                full = dict(desc, image=jarr(cc["img"]), filter=jarr(flt))
+                base = np.rint(np.asarray(out.data)).astype(np.int64)
+                assert np.array_equal(base.astype(np.float32), np.asarray(out.data)), "non-integer output"
+                want = refs.act(base, d, out.parity, g)
+                try:
+                    oA = A.times_group_element(np.asarray(g))
+                    oC = C.times_group_element(np.asarray(g))
+                    out2 = oA.convolve_with(oC, 1, pad2, None if c2["ld"] is None else tuple(c2["ld"]), tuple(c2["rd"]))
+                    got = np.rint(np.asarray(out2.data)).astype(np.int64)
+                except Exception as e:
+                    full["raised"] = repr(e)[:300]
+                    ctx.violation("oracle", "convolve_with: the object-level transformed call (g.A).convolve_with(g.C) "
+                                  "with a GeometricFilter raised although the original call succeeded", full)
+                    continue
+                if got.shape != want.shape or not np.array_equal(got, want):
+                    full["lhs"] = jarr(got); full["rhs"] = jarr(want)
+                    ctx.violation("oracle", "convolve_with: (g.A).convolve_with(g.C), A transformed by "
+                                  "GeometricImage.times_group_element and the GeometricFilter C by "
+                                  "GeometricFilter.times_group_element, differs from g.(A*C)", full)
+
+
 def run(ctx: Ctx):
     import jax.numpy as jnp
     import ginjax.geometric as geom
@@ -312,7 +386,10 @@ def run(ctx: Ctx):
         "filter order 0-2; both parities; filter sides 1-5 (odd for string paddings, odd/even otherwise), non-square "
         "filters; all torus flag vectors; TORUS / SAME / VALID / integer / explicit equal pairs / default; rhs dilation "
         "1-3; lhs dilation absent or 1-3; batch and channels 1-2; every g of B_2, 6 (quick) / all 48 (thorough) of B_3 "
-        "per configuration; basis x basis pairs on a tiny shape; all cyclic shifts on toroidal axes. Non-trivial: g != 1, "
+        "per configuration; basis x basis pairs on a tiny shape; all cyclic shifts on toroidal axes; the fully object-level "
+        "path (g.A).convolve_with(g.C) with C a non-invariant square GeometricFilter of order 0 (parity 0 and 1) or 1 "
+        "and g != g^-1 (both 90-degree rotations of B_2; 4 (quick) / all 28 (thorough) such elements of B_3 per "
+        "configuration; non-trivial when the image is non-constant). Non-trivial: g != 1, "
         "image and filter non-constant, filter side > 1 or k' > 0, and padding or wrap actually present."
     )
     ctx.assumptions = ["integer-valued float32 inputs keep the implementation's arithmetic exact"]
@@ -338,3 +415,7 @@ def run(ctx: Ctx):
                 idx += 1
     shift_cases(ctx, geom, jnp, 8 if ctx.tier == "quick" else 80)
     convolve_with_types(ctx, geom, jnp, 24 if ctx.tier == "quick" else 240)
+    if ctx.tier == "quick":
+        filter_object_cases(ctx, geom, jnp, 6, 4)
+    else:
+        filter_object_cases(ctx, geom, jnp, 24, 28)
